@@ -165,11 +165,9 @@ def model_outcome(line):
     if t[0] == "ok":
         return ("ok",)
     if t[0] == "item":
-        return ("item", int(t[1]), int(t[2]))
+        return ("item", int(t[1]), None if t[2] == "None" else int(t[2]))
     if t[0] == "order":
         return ("order", int(t[1]))
-    if t[0] == "unbound":
-        return ("unbound",)
     return ("other", line)
 
 
@@ -239,7 +237,7 @@ def judge(ctx, site, got, exp, replay):
     if got[0] != exp[0]:
         ctx.violate(f"C20/{site}/wrong-error-class/{reason}", f"expected the schedule-{exp[0]} error for {reason}, got {got}", replay)
         return False
-    if got[1] != exp[1] or (exp[0] == "item" and exp[2] is not None and got[2] != exp[2]):
+    if got[1] != exp[1] or (exp[0] == "item" and got[2] != exp[2]):
         ctx.violate(f"C20/{site}/wrong-error-position/{reason}", f"error reports {got[1:]} but the first malformed schedule/item is {exp[1:-1]}", replay)
         return False
     return True
@@ -579,7 +577,7 @@ def correspondence(ctx):
                 ok = t[0] == "ok" and t[1] == enc_scheds(impl[1])
                 impl = ("ok", repr(impl[1]))
             elif t[0] in ("item",):
-                ok = impl == ("item", int(t[1]), int(t[2]))
+                ok = impl == model_outcome(line)
             elif t[0] in ("order", "value"):
                 ok = impl == (t[0], int(t[1]))
             else:
@@ -598,13 +596,10 @@ def rp(kind, **kw):
 
 def oracle(ctx, volume=1):
     """the property on the implementation, against the independent statement of the rule above"""
-    ctx.partial = [{"theorem": "QM.C20.qmpt_accept_iff_shape_partial",
-                    "missing": "StandardQmpt also accepts [state i, mprocess 0, povm j] followed by any number of ('mprocess', 0) items "
-                               "(known finding D14; exact accepted language: qmpt_accept_iff; witness: qmpt_accept_iff_shape_fails)"}]
-    ctx.notes = ["non-iterable schedules (None) raise UnboundLocalError instead of the schedule-item error (known finding D13; "
-                 "model mirrors the stale loop variable; witness reject_item_or_order_nonIterable_fails)",
-                 "Experiment._validate_type and the downstream parts of the tomography constructors (set_coeffs, is_valid_experiment) are not modelled; "
-                 "the oracle constructs the real objects and executes every accepted schedule"]
+    ctx.notes = ["Experiment._validate_type and the downstream parts of the tomography constructors (set_coeffs, is_valid_experiment) are not modelled; "
+                 "the oracle constructs the real objects and executes every accepted schedule",
+                 "former defects D13 (non-iterable schedule -> UnboundLocalError) and D14 (StandardQmpt accepted trailing items) are fixed in /repo "
+                 "(d4e3672, d963183); their oracle signatures stay live"]
     # (a) constructor over the exhaustive single-schedule language, multi lists and random long schedules
     n = 0
     for cfg, s, _ in single_schedules(ctx):
@@ -685,8 +680,7 @@ def oracle(ctx, volume=1):
             why = "trailing-items" if (type(bad) is list and len(bad) > 3) else "other"
             ctx.violate(f"C20/{cls}/accepts-foreign-shape/{why}", f"{cls} accepts {bad}", r)
         elif not shape_ok and got[0] in ("other", "unbound"):
-            if not (got[0] == "unbound" or None in arg):
-                ctx.violate(f"C20/{cls}/rejects-with-{got[1].split(':')[0]}", f"{arg}: {got}", r)
+            ctx.violate(f"C20/{cls}/rejects-with-{'UnboundLocalError' if got[0] == 'unbound' else got[1].split(':')[0]}", f"{arg}: {got}", r)
         elif shape_ok:
             t = got[1]
             if t._experiment.schedules != arg:
